@@ -53,6 +53,12 @@ func liesCatalogue() []liesItem {
 	rpcs = append(rpcs, "slowloris")
 	sort.Strings(rpcs)
 	var out []liesItem
+	// a download of several requests below the require height (250 blocks = 3
+	// requests), liar and honest peer both serving: the liar answers a request
+	// that is not the last with a strict prefix / nothing
+	for rep := 0; rep < 3; rep++ {
+		out = append(out, liesItem{"blocks", "too-few-not-last", "long", "", 10 + rep}, liesItem{"blocks", "empty-not-last", "long", "", 10 + rep})
+	}
 	for _, regime := range []string{"plain", "instant"} {
 		batch := liesChainLen
 		if regime == "instant" {
@@ -69,6 +75,9 @@ func liesCatalogue() []liesItem {
 				continue
 			}
 			for _, kind := range p2px.ByzKinds[rpc] {
+				if kind == "too-few-not-last" || kind == "empty-not-last" {
+					continue // need a download of several requests: regime "long" above
+				}
 				switch {
 				case positional[rpc+"/"+kind]:
 					out = append(out,
@@ -100,15 +109,29 @@ func liesCase(it liesItem) C11Case {
 	if it.Regime == "instant" {
 		tc.Net = kit.NetSpec{Maturity: 1, Allow: 1, ReqOff: 1, CutOff: 2}
 	}
-	for i := 0; i < liesChainLen; i++ {
+	chainLen := liesChainLen
+	if it.Regime == "long" {
+		// v2 allowed from height 2, required only at 302: every block is a v2
+		// block on the AddBlocks path
+		tc.Net = kit.NetSpec{Maturity: 1, Allow: 2, ReqOff: 300, CutOff: 2}
+		chainLen = 250
+	}
+	for i := 0; i < chainLen; i++ {
+		if it.Regime == "long" && i%25 != 0 {
+			tc.Blocks = append(tc.Blocks, kit.BlockSpec{Dt: 1, Miner: i % 4, OnBad: true})
+			continue
+		}
 		bs := kit.BlockSpec{Dt: 1 + i%3, Miner: i % 4, OnBad: true, Txs: []kit.Intent{
 			{Kind: "pay", Who: i % 4, To: (i + 1) % 4, Pick: i, Amt: 3, V2: true, Fee: i%2 == 0},
 			{Kind: "pay", Who: (i + 2) % 4, To: (i + 3) % 4, Pick: i + 1, Amt: 5, V2: true},
 		}}
 		tc.Blocks = append(tc.Blocks, bs)
 	}
-	h := liesChainLen - 1
+	h := chainLen - 1
 	c := C11Case{Honest: h, Victim: -1, NHonest: 1, HonestDelayMS: 1500, Outline: false}
+	if it.Regime == "long" {
+		c.HonestDelayMS = 0 // liar and honest peer serve the same download
+	}
 	c.BadChild = appendRun(&tc, h, []kit.BlockSpec{{Dt: 1, Txs: []kit.Intent{{Kind: "pay", Who: 1, To: 2, Pick: 2, Amt: 4, V2: true}}, Corrupt: &kit.Corruption{Kind: "overspend", Arg: 0}}})
 	c.GoodChild = appendRun(&tc, h, []kit.BlockSpec{{Dt: 2, Miner: 1, Txs: []kit.Intent{{Kind: "pay", Who: 0, To: 1, Pick: 3, Amt: 3, V2: true}, {Kind: "pay", Who: 3, To: 2, Pick: 1, Amt: 5, Fee: true, V2: true}}}})
 	if it.RPC == "blocks" && it.Kind == "other-branch" {
